@@ -70,15 +70,26 @@ impl Write for UdpStream {
 
 impl AsyncRead for UdpStream {
     fn poll_read(
-        self: Pin<&mut Self>,
+        mut self: Pin<&mut Self>,
         cx: &mut Context<'_>,
         buf: &mut ReadBuf<'_>,
     ) -> Poll<Result<(), std::io::Error>> {
-        match self.inner.poll_recv(cx, buf) {
-            Poll::Ready(Ok(_n)) => Poll::Ready(Ok(())),
-            Poll::Ready(Err(e)) => Poll::Ready(Err(e)),
-            Poll::Pending => Poll::Pending,
+        // The caller's buffer may have less room than the next datagram needs, and whatever
+        // does not fit into the buffer given to recv is discarded by the socket. Always receive
+        // into our own full-size buffer and hand out as much as the caller can take.
+        if self.buffer.is_empty() {
+            let mut rx_bytes = [0u8; crate::MAX_SIZE_PACKET];
+            let mut rx_buf = ReadBuf::new(&mut rx_bytes);
+            match self.inner.poll_recv(cx, &mut rx_buf) {
+                Poll::Ready(Ok(())) => self.buffer.extend_from_slice(rx_buf.filled()),
+                Poll::Ready(Err(e)) => return Poll::Ready(Err(e)),
+                Poll::Pending => return Poll::Pending,
+            }
         }
+
+        let to_copy = buf.remaining().min(self.buffer.len());
+        buf.put_slice(&self.buffer.split_to(to_copy));
+        Poll::Ready(Ok(()))
     }
 }
 
